@@ -4,3 +4,41 @@ package fp
 
 import "math/big"
 
+func vDecRat(a *decimal) *big.Rat {
+	n := new(big.Int)
+	for i := 0; i < a.nd; i++ {
+		n.Mul(n, big.NewInt(10))
+		n.Add(n, big.NewInt(int64(a.d[i]-'0')))
+	}
+	r := new(big.Rat).SetInt(n)
+	e := a.dp - a.nd
+	p := new(big.Rat).SetInt(new(big.Int).Exp(big.NewInt(10), big.NewInt(int64(abs(e))), nil))
+	if e >= 0 {
+		r.Mul(r, p)
+	} else {
+		r.Quo(r, p)
+	}
+	return r
+}
+
+func vAssertShift(before, after *decimal, k int, left bool, id string) {
+	want := vDecRat(before)
+	two := new(big.Rat).SetInt(new(big.Int).Lsh(big.NewInt(1), uint(k)))
+	if left {
+		want.Mul(want, two)
+	} else {
+		want.Quo(want, two)
+	}
+	ok := vDecRat(after).Cmp(want) == 0 && !after.trunc
+	for i := 0; i < after.nd; i++ {
+		if after.d[i] < '0' || after.d[i] > '9' {
+			ok = false
+		}
+	}
+	if after.nd > 0 && (after.d[after.nd-1] == '0') {
+		ok = false
+	}
+	if !ok {
+		vFailures = append(vFailures, id)
+	}
+}
